@@ -4,6 +4,7 @@
 # runs the check. Exit 0 held / 1 violation / 2 check broken.
 set -u
 cd "$(dirname "$0")"
+export VERIF_DIR="$(pwd)"
 export GOFLAGS=-mod=mod GOPROXY=off GOSUMDB=off GOTOOLCHAIN=local
 ID="${1:?property id}"; TIER="${2:-quick}"; shift; shift || true
 [ -n "${VERIF_TIER:-}" ] && TIER="$VERIF_TIER"
